@@ -91,6 +91,41 @@ def run(tier):
         for _ in range(2000 if tier == "thorough" else 300):
             L = r.choice([3, 4, 15, 16, 17, 26, 100, 255, 600])
             ev([r.randrange(256) for _ in range(L)], r.randrange(65536), default=r.random() < 0.3)
+        # argument forms the unchanged function accepts for the data (bytes, bytearray, memoryview, list / tuple of ints) and for the
+        # start value (int, bool-free int subclass): an equal value in another representation gives the same result
+        class _I(int):
+            pass
+        for _ in range(40 if tier == "quick" else 400):
+            data = [r.randrange(256) for _ in range(r.choice([0, 1, 5, 26, 300]))]
+            st = r.randrange(65536)
+            for mk in (bytes, bytearray, lambda d: memoryview(bytes(d)), list, tuple):
+                tid += 1
+                try:
+                    out = crc(mk(data), _I(st) if tid % 2 else st)
+                except Exception as e:                           # noqa: BLE001 -- recorded, rejected by TLC (out of range)
+                    out = -1
+                evs.append({"tid": tid, "op": "crc", "data": list(data), "start": st, "out": out})
+        # several threads computing checksums of long inputs at once (tiny switch interval): every call still returns the CRC of
+        # ITS input - the function keeps no state outside the call
+        import threading, sys as _sys
+        inputs = [([r.randrange(256) for _ in range(r.choice([800, 1500, 3000]))], r.randrange(65536)) for _ in range(8 if tier == "quick" else 24)]
+        results = {}
+
+        def work(k):
+            for j in range(6):
+                d, st = inputs[(k + j) % len(inputs)]
+                results[(k, j)] = (d, st, crc(bytes(d), st))
+        old_si = _sys.getswitchinterval()
+        _sys.setswitchinterval(1e-5)
+        try:
+            ths = [threading.Thread(target=work, args=(k,)) for k in range(8)]
+            [t.start() for t in ths]
+            [t.join(120) for t in ths]
+        finally:
+            _sys.setswitchinterval(old_si)
+        for (k, j), (d, st, out) in sorted(results.items()):
+            tid += 1
+            evs.append({"tid": tid, "op": "crc", "data": list(d), "start": st, "out": out, "threaded": 1})
         # the same byte string checksummed again with other start values right away (and the default in between):
         # the result must depend on the start value of THIS call only
         for _ in range(400 if tier == "quick" else 4000):
